@@ -6,6 +6,8 @@
    dyadic rational computed with mpmath); each closure caches, so it is a
    function of its argument. *)
 open Model
+(* the extracted model may define Coq's [string] type (label syntax of C10): keep OCaml's here *)
+type string = Stdlib.String.t
 
 let z_of_string s = Big_int_Z.big_int_of_string s
 let string_of_z z = Big_int_Z.string_of_big_int z
